@@ -89,6 +89,7 @@ def same_atoms_diff(repo, fixed, fix_psi, seq, zero_first=False, zero_at=None, c
 
 def check(ctx):
     repo = ctx.repo
+    ctx.rule("R10.8", "the remembered potential self.current_A_applied is written by __init__ and update() only (where the refresh guard lives)", 2)
     ctx.rule("R10.1", "after any sequence of set_link_exponents calls, psi_gradient/psi_laplacian equal a fresh build "
                       "for the last potential (merged COO blocks, masks included; no store outside the built pattern)", 12)
     ctx.rule("R10.2", "every block of the fresh operators that carries a link variable is rewritten by the refresh", 3)
@@ -149,6 +150,7 @@ def check(ctx):
                    consequence="a link-variable entry is never refreshed (stale) or a link-free entry is overwritten")
     check_triggers(ctx)
     link_callers(ctx)
+    baseline_writers(ctx)
     ctx.assume("scipy's sparse __setitem__ overwrites existing entries (R10.1 shows every refreshed position exists in the pattern)")
     ctx.decline("cupy branch of _spmatrix_set_many (GPU only); numerical equality in floating point")
 
@@ -377,3 +379,28 @@ def link_callers(ctx, rule="R10.7"):
                                    "screening) keeps only the real part of the link variables: the refreshed operators differ from a rebuild")
     if sites < 3:
         raise AnalysisError(f"expected >=3 set_link_exponents call sites outside MeshOperators, found {sites}")
+
+
+def baseline_writers(ctx):
+    """R10.8: without screening the operators belong to `self.current_A_applied`; that pairing is established by __init__
+    (build + store) and maintained by update() (guarded refresh + store).  Any other writer moves the reference without the operators."""
+    repo = ctx.repo
+    cls = repo.cls(SOLVER, "TDGLSolver")
+    writers = {}
+    for name, f in cls.methods.items():
+        for n in own_nodes(f.node):
+            if isinstance(n, ast.Attribute) and isinstance(n.ctx, (ast.Store, ast.Del)) and n.attr == "current_A_applied" and norm(n.value) == "self":
+                writers.setdefault(name, []).append(n)
+            if isinstance(n, ast.Call) and getattr(n.func, "id", "") == "setattr" and len(n.args) >= 2 and isinstance(n.args[1], ast.Constant) \
+                    and n.args[1].value == "current_A_applied":
+                writers.setdefault(name, []).append(n)
+    for name, nodes in sorted(writers.items()):
+        ok = name in ("__init__", "update")
+        f = cls.methods[name]
+        ctx.ob("R10.8", f"TDGLSolver.{name} writes self.current_A_applied", ok, where=f.fq, construct=f"self.current_A_applied written in {name}",
+               loc=loc(f, nodes[0]), message=f"TDGLSolver.{name} moves the reference potential `self.current_A_applied` (L{nodes[0].lineno}) without "
+                                             f"being the place where the operators are refreshed",
+               consequence="the 'has A changed?' guard of update() compares with a value the operators were not built for: when solve() is called "
+                           "again on the same solver the link variables of the previous run stay in use until A(t) first departs from A(0)")
+    if set(writers) & {"__init__", "update"} != {"__init__", "update"}:
+        raise AnalysisError(f"expected __init__ and update to write self.current_A_applied, found {sorted(writers)}")
